@@ -73,7 +73,8 @@ type mp struct {
 	pendingLists  int
 	failPodList   bool
 	reconcileErrs int
-	deadlinePool  string // GetInstanceTypes of this NodePool reports context.DeadlineExceeded
+	count         func(string) // distribution counter of the run
+	deadlinePool  string       // GetInstanceTypes of this NodePool reports context.DeadlineExceeded
 	// NodePools that must not be used for new NodeClaims right now (name -> why)
 	poolOut map[string]string
 }
@@ -334,7 +335,27 @@ func (m *mp) nodeAppears(nc *v1.NodeClaim, zeroStatus bool, variant string) *cor
 		labels[v1.NodePoolLabelKey] = nc.Labels[v1.NodePoolLabelKey]
 	}
 	taints := []corev1.Taint{v1.UnregisteredNoExecuteTaint}
-	taints = append(taints, nc.Spec.StartupTaints...)
+	// the kubelet registers the startup taints as ITS configuration spells them (--register-with-taints key=true:NoSchedule):
+	// same key and effect as NodeClaim.Spec.StartupTaints, but possibly with a value and a timeAdded the claim does not have
+	for _, st := range nc.Spec.StartupTaints {
+		t := *st.DeepCopy()
+		switch m.r.Intn(4) {
+		case 0:
+			t.Value = "true"
+			m.count("startup-taint-on-node.with-value")
+		case 1:
+			now := metav1.NewTime(m.clk.Now())
+			t.TimeAdded = &now
+			m.count("startup-taint-on-node.with-time-added")
+		case 2:
+			now := metav1.NewTime(m.clk.Now())
+			t.Value, t.TimeAdded = "true", &now
+			m.count("startup-taint-on-node.with-value-and-time-added")
+		default:
+			m.count("startup-taint-on-node.identical")
+		}
+		taints = append(taints, t)
+	}
 	taints = append(taints, nc.Spec.Taints...)
 	if m.r.Bool() {
 		taints = append(taints, corev1.Taint{Key: corev1.TaintNodeNotReady, Effect: corev1.TaintEffectNoSchedule})
